@@ -23,6 +23,13 @@ Proved, for all values in range / all lists:
        `view_of_tables`.  Code items with or without tries (the try items and the
        encoded_catch_handler_list of AgVerif.Spec.Tries are read past; their contents are C08's
        subject).  Non-vacuity: a 692-byte DEX written by harness/dexasm.py (Proof/DexExample.lean).
+  ext  static values (Model/DexFileX.lean: `parseDexX` = the loader with the item parsers of
+       encoded_array_item and the full ClassDefItem.reload): `parse_encode_static_values` — for every file
+       that `EncodesX` well-formed extended tables (the base tables + an encoded_array_item section of
+       arrays of the format document's encoded_values, any nesting) the extended loader ends in the
+       declared state and reports the declared static values and init values; the decoder is C04's
+       (`encoded_value_decoder_is_C04`), the base view is the base loader's (`extended_refines_base`);
+       writer `parse_build_static_values`; non-vacuity Proof/DexXExample.lean.
   write `build_encodes`, `parse_build`: a layout-parametric writer whose output `Encodes` the tables for
        every `Consistent` layout, hence parse ∘ write = declared content; witnessed by the same
        content laid out in another order (Example.T2 / L2), which declares the same view.
@@ -31,6 +38,9 @@ import AgVerif.Proof.DexFile
 import AgVerif.Proof.DexLoadView
 import AgVerif.Proof.DexBuild
 import AgVerif.Proof.DexExample
+import AgVerif.Proof.DexXBuild
+import AgVerif.Proof.DexXInits
+import AgVerif.Proof.DexXExample
 namespace AgVerif.C05
 open AgVerif.DexFile AgVerif.Spec.Leb
 open AgVerif.Spec.DexFile (ushort uint ULeb protoId fieldId methodId classDef typeListBody codeHdr EncFields EncMethods EncClassData diffs undiffs Ascending)
@@ -303,6 +313,71 @@ theorem tables_rows (T : Tables) (L : Layout) :
   refine ⟨rfl, rfl, ?_, ?_, ?_, ?_⟩ <;>
     simp [tablesCM, Option.map_map, Function.comp_def, List.map_map, protoR, fieldR, methodR, classR]
 
+
+/-! ## extension: static values (encoded_array_item, class_def_item.static_values_off)
+
+`parseDexX` (Model/DexFileX.lean) is the loader with the item parsers of ENCODED_ARRAY_ITEM, the
+annotation item types and the whole of ClassDefItem.reload (annotations directory lookup, static
+values lookup, ClassDataItem.set_static_fields).  Vocabulary: Proof/DexXTables.lean (`TablesX`,
+`EncodesX`, `WFX`, `tablesCMX`, `declaredX`); in this step the layout has no annotation sections
+(`NoAnn`) and the class defs no annotations directory. -/
+
+/-- the extended loader refines the base loader: when it succeeds, `parseDex` succeeds with the base
+    part of its view (so every theorem above about `parseDex` speaks about the same classes) -/
+theorem extended_refines_base (file : Bytes) (v : DexVX) (h : parseDexX file = .ok v) :
+    parseDex file = .ok v.base := DexX.parseDexX_base file v h
+
+/-- the encoded_value decoder of the extended loader (ClassManager lookups may raise) is C04's decoder
+    whenever the lookups do not raise: same values, same byte counts, same struct errors -/
+theorem encoded_value_decoder_is_C04 (c : EncodedValue.CM) (fuel : Nat) (bs : Bytes) :
+    decValueX (DexX.okLook c) fuel bs = DexX.liftE (EncodedValue.decodeValue c fuel bs) :=
+  DexX.decValueX_lift c fuel bs
+
+/-- an encoded_array of the format document (uleb128 size of any valid encoding, then that many
+    encoded_values, nested to any depth) is decoded to the values it denotes, consuming exactly its bytes -/
+theorem encoded_array_roundtrip (P : Spec.EncodedValue.Pools) (ab : Bytes) (vs : List Spec.EncodedValue.SValue)
+    (rest : Bytes) (h : DexX.EncArray ab vs) :
+    decArrayX (DexX.okLook (EncodedValue.toCM P)) (ab ++ rest) = .ok (vs.map (EncodedValue.embed P), ab.length) :=
+  DexX.decArrayX_enc P ab vs rest h
+
+/-- sections → extended tables: whatever the order of the map entries, the extended loader ends in
+    exactly the state the tables denote (arrays keyed by their offsets, every value resolved against
+    the id tables; per class the static values found at static_values_off and the record of
+    set_static_fields calls) -/
+theorem static_tables_from_file (file : Bytes) (L : Layout) (TX : TablesX) (hwf : WFX TX L)
+    (henc : EncodesX file L TX) : loadEntriesX file L.map = .ok (tablesCMX TX L) :=
+  loadEntriesX_tables henc hwf
+
+/-- The file-level statement with static values: for EVERY file that encodes well-formed extended
+    tables in ANY layout, the extended loader reports exactly the declared extended view (the base
+    view, the static values of every class, the init value of every static field). -/
+theorem parse_encode_static_values (file : Bytes) (L : Layout) (TX : TablesX) (hwf : WFX TX L)
+    (henc : EncodesX file L TX) : parseDexX file = .ok (declaredX TX L) :=
+  parseDexX_declared henc hwf
+
+/-- the layout-parametric writer with the encoded_array_item section: its output encodes the tables -/
+theorem build_encodes_static_values (TX : TablesX) (L : Layout) (size : Nat) (hc : ConsistentX TX L size)
+    (hi : ItemsOk TX.base) (ha : ∀ p ∈ TX.encArrays, DexX.EncArray p.2 p.1) :
+    EncodesX (buildX TX L size) L TX := encodesX_buildX hc hi ha
+
+/-- parse ∘ write = declared content, extended -/
+theorem parse_build_static_values (TX : TablesX) (L : Layout) (size : Nat) (hwf : WFX TX L)
+    (hc : ConsistentX TX L size) (hi : ItemsOk TX.base) (ha : ∀ p ∈ TX.encArrays, DexX.EncArray p.2 p.1) :
+    parseDexX (buildX TX L size) = .ok (declaredX TX L) := parseDexX_buildX hwf hc hi ha
+
+/-- what the declared init values are in the ordinary case (the class data item of the class is
+    written by exactly one set_static_fields call — class data items are not shared — with no more
+    values than static fields): static field `i` carries value `i` of the class's array, the fields
+    beyond the array carry no value (the format document's rule, Spec.EncodedValue.staticInit) -/
+theorem static_init_values (TX : TablesX) (L : Layout) (c : ClassDef) (d : ClassData) (vs : List EncodedValue.Value)
+    (hd : classDataAt TX.base L c.dataOff = some d)
+    (hone : (TX.base.classDefs.filterMap (initOf TX L)).filter (fun p => p.1 == c.dataOff) = [(c.dataOff, vs)])
+    (hl : vs.length ≤ d.sf.length) (i : Nat) :
+    (classVX TX L c).inits[i]? = Spec.EncodedValue.staticInit vs d.sf.length i ∧
+    (classVX TX L c).inits.length = d.sf.length := by
+  simp only [classVX, hd]
+  exact DexX.inits_unshared _ _ _ vs hone hl i
+
 /-! ## lookups -/
 
 /-- get_encoded_method_descriptor returns only a method with the requested class, name, descriptor -/
@@ -480,5 +555,17 @@ example : (allFields (declared Example.T Example.L)).map (fun f => [f.cls, f.nam
 example : (allMethods (declared Example.T Example.L)).map (fun m => [m.name, m.desc] ++ (m.code.map (·.insns)).toList) =
     [[ascii "<init>", ascii "()V", [112, 16, 3, 0, 0, 0, 14, 0]], [ascii "f", ascii "(I J)I", [18, 16, 15, 0, 13, 1, 18, 32, 15, 0, 18, 48, 15, 0]],
      [ascii "run", ascii "()V", [14, 0]]] := by decide +kernel
+
+/-- … static values: a file written by `buildX` (class `LA;`, static fields `x : I` and `I : LA;`, static
+    values [int 7, string "x"]) satisfies every hypothesis of `parse_build_static_values`, and declares
+    the init values 7 and "x" -/
+example : WFX ExampleX.TX ExampleX.L ∧ ConsistentX ExampleX.TX ExampleX.L ExampleX.size ∧ ItemsOk ExampleX.TX.base ∧
+    ∀ p ∈ ExampleX.TX.encArrays, DexX.EncArray p.2 p.1 :=
+  ⟨ExampleX.wf, ExampleX.consistent, ExampleX.itemsOk, ExampleX.arraysOk⟩
+example : parseDexX (buildX ExampleX.TX ExampleX.L ExampleX.size) = .ok (declaredX ExampleX.TX ExampleX.L) :=
+  parse_build_static_values _ _ _ ExampleX.wf ExampleX.consistent ExampleX.itemsOk ExampleX.arraysOk
+example : (declaredX ExampleX.TX ExampleX.L).classes.map (fun c => c.inits.map (·.bind ExampleX.valInt)) = [[some 7, none]] ∧
+    (declaredX ExampleX.TX ExampleX.L).classes.map (fun c => c.inits.map (·.bind ExampleX.valRef)) = [[none, some ["x"]]] := by
+  decide +kernel
 
 end AgVerif.C05
